@@ -236,6 +236,16 @@ theorem compare_ctx_iff_instant_order (itz : Option Int) (op : Cmp) (a b : DT) (
 /-- test (literals): F11n's pair under implicit timezone +14:00 is now ordered by the instants -/
 example : compareCtx (some 840) .lt ⟨2002, 2, 1, 0, none⟩ ⟨2002, 1, 31, 74220000000, some 0⟩ = true := by decide
 
+/-- PARTIAL (known finding F11t): `fn:max`, `fn:min`, `fn:distinct-values`, `fn:index-of`, `fn:deep-equal` and
+`fn:sort` compare date/time values with the raw `_compare` (a value without timezone at UTC) instead of the
+comparison under the implicit timezone of the context.  The two agree — so every function of the comparison
+results agrees — exactly when the implicit timezone cannot matter; otherwise they can differ:
+`compare_implicit_tz_witness`. -/
+theorem seq_functions_implicit_tz_partial (itz : Int) (op : Cmp) (a b : DT) (ha : a.Valid) (hb : b.Valid)
+    (hi : TzOk (some itz)) (hd : CmpDomain a b) (hd' : CmpDomain (fillTz (some itz) a) (fillTz (some itz) b))
+    (h : ImplicitTzIrrelevant a b itz) : compare op a b = compareCtx (some itz) op a b :=
+  compare_raw_eq_ctx itz op a b ha hb hi hd hd' h
+
 /-! ### timezone adjustment -/
 
 /-- **`adjust-dateTime-to-timezone` preserves the instant** when both the value and the argument have a
@@ -284,6 +294,12 @@ theorem components_eq_spec (v11 : Bool) (v : DT) (hy : v.year ≠ 0) :
     Cal.components v11 v = Timeline.components v11 (absV v) := by
   unfold Cal.components Timeline.components yearFrom absV astro lex11OfAstro lex10OfAstro
   cases v11 <;> simp <;> split <;> (try split) <;> omega
+
+/-- PARTIAL (known finding F11y): the `[Z]` picture component of `fn:format-dateTime/date/time` shows the value's own
+timezone when it has one; for a value without timezone it shows `+00:00` where F&O 3.1 §9.8.4.6 prints nothing. -/
+theorem picture_tz_partial (tz : Option Int) (z : Int) (h : tz = some z) : pictureTz tz = tz := by subst h; rfl
+
+theorem picture_tz_witness : pictureTz none = some 0 ∧ pictureTz none ≠ none := by decide
 
 /-! ### ± yearMonthDuration -/
 
@@ -393,6 +409,18 @@ theorem date_string_roundtrip (v11 : Bool) (v : DT) (hv : v.Valid) (hus : v.us =
 theorem time_string_roundtrip (t : DT) (ht : IsTime t) : timeOfLex (fmtTime t) = .ok t :=
   time_lex_roundtrip t ht
 
+/-- the same for gYear, gYearMonth, gMonth, gMonthDay and gDay: `Gregorian*.fromstring(str(g)) = g` for every value
+whose absent fields are the constructor's defaults (`GShape`) -/
+theorem gregorian_string_roundtrip (k : GKind) (v11 : Bool) (v : DT) (hs : GShape k v) (hv : v.Valid)
+    (hyb : v.year.natAbs ≤ 2 ^ 31) : gOfLex k v11 (fmtG k v11 v) = .ok v :=
+  g_lex_roundtrip k v11 v hs hv hyb
+
+/-- test (literals): gYear '-0045+02:00' (XSD 1.1: 46 BCE), gMonthDay '--02-29', no '--02-30', gYear '2000-05:00' -/
+example : gOfLex .gYear true "-0045+02:00".toList = .ok ⟨-46, 1, 1, 0, some 120⟩ ∧
+    gOfLex .gMonthDay false "--02-29".toList = .ok ⟨2000, 2, 29, 0, none⟩ ∧ gOfLex .gMonthDay false "--02-30".toList = .error .value ∧
+    gOfLex .gYear false "2000-05:00".toList = .ok ⟨2000, 1, 1, 0, some (-300)⟩ ∧
+    fmtG .gYearMonth true ⟨-46, 3, 1, 0, none⟩ = "-0045-03".toList := by decide
+
 /-- **lexical → components → canonical string**: a literal whose fields are a real calendar date and a time of day
 is read by `fromstring` into exactly the value `components_roundtrip` describes — here for the canonical
 literal of a value: reading it and building the value from its own fields is the same thing. -/
@@ -416,32 +444,32 @@ example : dateTimeOfLex false "-0820-01-01T12:30:15.5+05:30".toList = .ok ⟨-82
 /-! ### xs:time -/
 
 /-- **`time ± dayTimeDuration` wraps modulo 24 hours** and keeps the timezone (F&O
-`op:add-dayTimeDuration-to-time`), for every time of day and every duration inside the domain. -/
-theorem time_add_wraps (t : DT) (dur : Int) (neg : Bool) (ht : IsTime t) (hd : TdOk dur)
-    (hdom : TimeDomain t (if neg then -dur else dur)) :
+`op:add-dayTimeDuration-to-time`), for every time of day and **every** duration (former F11o: no overflow,
+the duration is reduced modulo 24 h before it is added to the proxy date). -/
+theorem time_add_wraps (t : DT) (dur : Int) (neg : Bool) (ht : IsTime t) :
     timeAddDur t dur neg = .ok { t with us := (t.us + (if neg then -dur else dur)) % Cal.US } ∧
     absT { t with us := (t.us + (if neg then -dur else dur)) % Cal.US } = (absT t).add (if neg then -dur else dur) := by
   refine ⟨?_, rfl⟩
   unfold timeAddDur
-  rw [tdNorm_ok hd]
-  simp only [bind, Except.bind]
-  exact timeAddUs_spec t _ ht hdom
+  simp only []
+  have h0 := ht.2.2.2.1; have h1 := ht.2.2.2.2.1
+  have hr : -Cal.US < decRem dur Cal.US ∧ decRem dur Cal.US < Cal.US ∧ (decRem dur Cal.US - dur) % Cal.US = 0 := by
+    unfold decRem; simp only [Cal.US]; split <;> omega
+  have hdom : TimeDomain t (if neg then -decRem dur Cal.US else decRem dur Cal.US) := by
+    unfold TimeDomain MAXORD; simp only [Cal.US] at *; split <;> omega
+  rw [timeAddUs_spec t _ ht hdom]
+  congr 2
+  simp only [Cal.US] at *
+  cases neg <;> simp only [Bool.false_eq_true, ↓reduceIte] <;> omega
 
-/-- PARTIAL (known finding F11o): the sum is computed on the proxy date 2000-01-01 with CPython's
-`datetime`, so a duration that moves that date outside years 1..9999 raises `OverflowError` (FODT0001)
-although the time of day is well defined. -/
-theorem time_add_overflow (t : DT) (dur : Int) (neg : Bool) (ht : IsTime t) (hd : TdOk dur)
-    (hdom : ¬ TimeDomain t (if neg then -dur else dur)) : timeAddDur t dur neg = .error .overflow := by
-  unfold timeAddDur
-  rw [tdNorm_ok hd]
-  simp only [bind, Except.bind]
-  exact timeAddUs_err t _ ht hdom
+/-- the arithmetic on the proxy date itself (`Time ± datetime.timedelta` of the Python API) still needs the sum to
+stay inside CPython's years 1..9999 -/
+theorem time_add_timedelta_overflow (t : DT) (d : Int) (ht : IsTime t) (hdom : ¬ TimeDomain t d) :
+    timeAddUs t d = .error .overflow := timeAddUs_err t d ht hdom
 
-/-- F11o witness: 23:00:00 + P3000000D -/
-theorem time_add_overflow_witness :
-    IsTime ⟨2000, 1, 1, 82800000000, none⟩ ∧ TdOk (3000000 * 86400000000) ∧
-    ¬ TimeDomain ⟨2000, 1, 1, 82800000000, none⟩ (3000000 * 86400000000) ∧
-    timeAddDur ⟨2000, 1, 1, 82800000000, none⟩ (3000000 * 86400000000) false = .error .overflow := by decide
+/-- test (literals): 23:00:00 + P3000000DT2H = 01:00:00 -/
+example : timeAddDur ⟨2000, 1, 1, 82800000000, none⟩ (3000000 * 86400000000 + 7200000000) false =
+    .ok ⟨2000, 1, 1, 3600000000, none⟩ := by decide
 
 /-- **`adjust-time-to-timezone`** with both timezones present: the time of day moved by the difference of
 the offsets, modulo 24 hours, with the new timezone; never an overflow. -/
